@@ -8,6 +8,7 @@ import (
 	"os"
 	"os/exec"
 	"path/filepath"
+	"regexp"
 	"strconv"
 	"strings"
 	"time"
@@ -177,4 +178,80 @@ func nativeReplay(l *Loaded, pkgPath string, tapes []TapeSpec, scratch string) (
 		return res, out.String(), fmt.Errorf("go test failed: %v\n%s", runErr, trunc(out.String(), 4000))
 	}
 	return res, out.String(), nil
+}
+
+var raceSiteRe = regexp.MustCompile(`([A-Za-z0-9_./-]+\.go):(\d+)`)
+
+// raceReplay confirms a data race reported by the engine's happens-before
+// detector: the harness is compiled with the Go race detector and run with
+// VERIF_FREE=1, where zzverif.RunThreads starts the threads as ordinary
+// goroutines and zzsync falls through to the real sync package (a forced
+// schedule would hand a baton through channels and thereby order every
+// access). The race is confirmed when the detector prints a report that
+// mentions one of the source files of the engine's report.
+func raceReplay(l *Loaded, pkgPath string, tape TapeSpec, engineMsg string, scratch string) (confirmed bool, excerpt string, err error) {
+	src, err := replayTestSource(l, pkgPath)
+	if err != nil {
+		return false, "", err
+	}
+	rel := strings.TrimPrefix(strings.TrimPrefix(pkgPath, l.ModulePath), "/")
+	dirTag := strings.ReplaceAll(rel, "/", "_")
+	if dirTag == "" {
+		dirTag = "root"
+	}
+	testReal := filepath.Join(scratch, "replay_"+l.Module+"_"+dirTag+"_test.go")
+	if err := os.WriteFile(testReal, []byte(src), 0o644); err != nil {
+		return false, "", err
+	}
+	ovPath := filepath.Join(scratch, "overlay_race_"+l.Module+"_"+dirTag+".json")
+	extra := map[string]string{filepath.Join(l.ModuleDir, rel, "zz_verif_replay_test.go"): testReal}
+	if err := l.writeOverlayJSON(ovPath, extra); err != nil {
+		return false, "", err
+	}
+	bin := filepath.Join(scratch, "replay_race_"+l.Module+"_"+dirTag+".test")
+	if _, statErr := os.Stat(bin); statErr != nil {
+		build := exec.Command("go", "test", "-mod=mod", "-race", "-vet=off", "-c", "-overlay", ovPath, "-o", bin, pkgPath)
+		build.Dir = l.ModuleDir
+		build.Env = append(goEnv(), "CGO_ENABLED=1")
+		var bout bytes.Buffer
+		build.Stdout, build.Stderr = &bout, &bout
+		if err := build.Run(); err != nil {
+			return false, "", fmt.Errorf("go test -race -c failed: %v\n%s", err, trunc(bout.String(), 3000))
+		}
+	}
+	listPath := filepath.Join(scratch, fmt.Sprintf("racelist_%d.txt", time.Now().UnixNano()))
+	// the same tape several times: each run starts the goroutines afresh
+	if err := os.WriteFile(listPath, []byte(strings.Repeat(tape.Path+"\n", 20)), 0o644); err != nil {
+		return false, "", err
+	}
+	cmd := exec.Command(bin, "-test.run", "^TestZZVerifReplay$", "-test.timeout", "300s")
+	cmd.Dir = scratch
+	cmd.Env = append(goEnv(), "VERIF_TAPELIST="+listPath, "VERIF_FREE=1", "GORACE=halt_on_error=0")
+	var out bytes.Buffer
+	cmd.Stdout, cmd.Stderr = &out, &out
+	_ = cmd.Run()
+	text := out.String()
+	idx := strings.Index(text, "WARNING: DATA RACE")
+	if idx < 0 {
+		return false, trunc(text, 400), nil
+	}
+	files := map[string]bool{}
+	for _, m := range raceSiteRe.FindAllStringSubmatch(engineMsg, -1) {
+		files[filepath.Base(m[1])] = true
+	}
+	for _, block := range strings.Split(text, "WARNING: DATA RACE")[1:] {
+		if end := strings.Index(block, "=================="); end >= 0 {
+			block = block[:end]
+		}
+		for f := range files {
+			if strings.Contains(block, "/"+f+":") {
+				lines := strings.Split(strings.TrimSpace(block), "\n")
+				if len(lines) > 6 {
+					lines = lines[:6]
+				}
+				return true, strings.Join(lines, " | "), nil
+			}
+		}
+	}
+	return false, "race detector reported only races elsewhere: " + trunc(text[idx:], 400), nil
 }
